@@ -601,6 +601,14 @@ func genRtspSrvCase(t *rapid.T) RtspSrvCase {
 			c.Steps = append(c.Steps, RtspSrvStep{Resp: genRResp(t)})
 		}
 	}
+	if trs := c.tracks(); c.Stage == "playing" && len(trs) > 0 && rapid.IntRange(0, 3).Draw(t, "srSandwich") == 0 {
+		// the receiver-report producer also runs in lal's pull session (same BaseInSession)
+		var sw []RtspSrvStep
+		for _, s := range genSrSandwich(t, rapid.SampledFrom(trs).Draw(t, "swTrack"), st) {
+			sw = append(sw, RtspSrvStep{Frame: s.Frame})
+		}
+		c.Steps = append(sw, c.Steps...)
+	}
 	c.Mut = genMut(t)
 	c.Slices = genSlices(t)
 	return c
@@ -698,6 +706,11 @@ func classifyRtspSrv(c RtspSrvCase) (bool, []string) {
 		}
 		labels = append(labels, l...)
 	}
+	var asSteps []Step
+	for _, st := range c.Steps {
+		asSteps = append(asSteps, Step{Frame: st.Frame})
+	}
+	labels = append(labels, sandwichLabels(asSteps)...)
 	labels = append(labels, c.Mut.labels()...)
 	return len(c.Steps) > 0, uniq(labels)
 }
